@@ -1,6 +1,6 @@
 (* Properties/C16.v — the ontology is a function of the facts, not of their order (C16) *)
 From Coq Require Import Relations Permutation.
-From HpoV Require Import Gen.Consts Model.Base Model.Group Model.Onto Model.Dump Run.World Run.Ser Run.C16 Proofs.C15P Proofs.ClosureP Proofs.LinkP Proofs.RecordsP Proofs.C16M Model.Script Proofs.AllPathsP.
+From HpoV Require Import Gen.Consts Model.Base Model.Group Model.Onto Model.Dump Run.World Run.Ser Run.C16 Proofs.C15P Proofs.ClosureP Proofs.LinkP Proofs.RecordsP Proofs.C16M Model.Script Proofs.AllPathsP Model.Binary Model.Text Proofs.DecodeAnyP Proofs.DecodeOrderP Proofs.JaxP Proofs.JaxDescribesP Proofs.JaxOrderP.
 
 Theorem C16_all_orders_same_observation : forall i o, spec_C16 i o = true ->
   forall a b, In a o -> In b o -> ser_res a = ser_res b.
@@ -48,8 +48,50 @@ Theorem C16_constructed_ontologies_with_same_facts_agree : forall icf o1 o2 t1 t
   (forall k, t_annots k t2 = t_annots k t1) /\ t_ic t2 = t_ic t1.
 Proof. exact constructed_same_facts_agree. Qed.
 
+(* TEXT FILES: two loads from JAX files that state the same facts - the same is_a pairs as collected by the
+   scan of hp.obo, the same gene rows, the same disease rows, in whatever order stanzas and rows appear and
+   however often a row is repeated - agree, term by term, on everything derived *)
+Theorem C16_text_files_order_irrelevant : forall icf tr1 obo1 genes1 hpoa1 tr2 obo2 genes2 hpoa2 o1 o2 ob1 conns1 ob2 conns2 t1 t2,
+  obo_closed obo1 -> obo_closed obo2 ->
+  load_jax icf tr1 obo1 genes1 hpoa1 = Ok o1 -> load_jax icf tr2 obo2 genes2 hpoa2 = Ok o2 ->
+  obo_scan obo1 = Ok (ob1, conns1) -> obo_scan obo2 = Ok (ob2, conns2) ->
+  (forall c p, In (c, p) conns1 <-> In (c, p) conns2) ->
+  (forall g x, gene_row tr1 genes1 g x <-> gene_row tr2 genes2 g x) ->
+  (forall k g x, disease_row k hpoa1 g x <-> disease_row k hpoa2 g x) ->
+  In t1 (ar_terms (o_arena o1)) -> In t2 (ar_terms (o_arena o2)) -> t_id t2 = t_id t1 ->
+  t_parents t2 = t_parents t1 /\ t_children t2 = t_children t1 /\ t_allp t2 = t_allp t1 /\
+  (forall k, t_annots k t2 = t_annots k t1) /\ t_ic t2 = t_ic t1.
+Proof. exact jax_files_order_irrelevant. Qed.
+
+(* stanzas of hp.obo and rows of the two annotation files in any order (tr: from_standard_transitive) *)
+Theorem C16_text_files_any_order : forall icf tr obo1 genes1 hpoa1 obo2 genes2 hpoa2 o1 o2 t1 t2,
+  obo_closed obo1 -> obo_closed obo2 ->
+  load_jax icf tr obo1 genes1 hpoa1 = Ok o1 -> load_jax icf tr obo2 genes2 hpoa2 = Ok o2 ->
+  Permutation (split_blank obo1 []) (split_blank obo2 []) ->
+  Permutation (lines (snd (split_first_line genes1))) (lines (snd (split_first_line genes2))) ->
+  Permutation (lines hpoa1) (lines hpoa2) ->
+  In t1 (ar_terms (o_arena o1)) -> In t2 (ar_terms (o_arena o2)) -> t_id t2 = t_id t1 ->
+  t_parents t2 = t_parents t1 /\ t_children t2 = t_children t1 /\ t_allp t2 = t_allp t1 /\
+  (forall k, t_annots k t2 = t_annots k t1) /\ t_ic t2 = t_ic t1.
+Proof. exact jax_files_any_order. Qed.
+
+(* BINARY FILES: the order of records inside the sections (the statement of C08_record_order_irrelevant) *)
+Theorem C16_binary_record_order_irrelevant : forall icf in1 in2 o1 o2 t1 t2,
+  decode icf in1 = Ok o1 -> decode icf in2 = Ok o2 ->
+  bin_closed in1 -> bin_closed in2 -> bin_distinct in1 -> bin_distinct in2 ->
+  (forall k r d, In r (o_records k o1) -> In d (a_hpos r) -> In d (ar_keys (o_arena o1))) ->
+  (forall k r d, In r (o_records k o2) -> In d (a_hpos r) -> In d (ar_keys (o_arena o2))) ->
+  same_facts o1 o2 ->
+  In t1 (ar_terms (o_arena o1)) -> In t2 (ar_terms (o_arena o2)) -> t_id t2 = t_id t1 ->
+  t_parents t2 = t_parents t1 /\ t_children t2 = t_children t1 /\ t_allp t2 = t_allp t1 /\
+  (forall k, t_annots k t2 = t_annots k t1) /\ t_ic t2 = t_ic t1.
+Proof. exact decode_any_order_independent. Qed.
+
 Print Assumptions C16_all_orders_same_observation.
 Print Assumptions C16_model_closure_order_independent.
 Print Assumptions C16_model_annotations_order_independent.
 Print Assumptions C16_builder_scripts_order_independent.
 Print Assumptions C16_constructed_ontologies_with_same_facts_agree.
+Print Assumptions C16_text_files_order_irrelevant.
+Print Assumptions C16_text_files_any_order.
+Print Assumptions C16_binary_record_order_irrelevant.
